@@ -19,30 +19,39 @@ def fmax():
     return rv(FLOAT_MAX)
 
 
-def sym_matrix(eng, n, m=None, symmetric=True, diag="free", name="w", distinct=False):
+def sym_matrix(eng, n, m=None, symmetric=True, diag="free", name="w", distinct=False, positive=False):
     """n x m matrix of symbolic reals in [0, FLOAT_MAX).  diag: free | zero"""
     m = m or n
-    W = [[None] * m for _ in range(n)]
-    cons = []
-    offdiag = []
-    for i in range(n):
-        for j in range(m):
-            if symmetric and j < i and j < n and i < m:
-                W[i][j] = W[j][i]
-                continue
-            if i == j and diag == "zero":
-                W[i][j] = 0.0
-                continue
-            v = eng.real("%s_%d_%d" % (name, i, j))
-            W[i][j] = v
-            cons.append(z3.And(v.e >= 0, v.e < fmax()))
-            if i != j:
-                offdiag.append(v.e)
-    if cons:
-        eng.assume(z3.And(cons))
-    if distinct and len(offdiag) > 1:
-        eng.assume(z3.Distinct(offdiag))
-    return W
+
+    def build():
+        W = [[None] * m for _ in range(n)]
+        cons = []
+        offdiag = []
+        vars_ = []
+        for i in range(n):
+            for j in range(m):
+                if symmetric and j < i and j < n and i < m:
+                    W[i][j] = W[j][i]
+                    continue
+                if i == j and diag == "zero":
+                    W[i][j] = 0.0
+                    continue
+                v = z3.Real("%s_%d_%d" % (name, i, j))
+                vars_.append(v)
+                W[i][j] = SymReal(v)
+                cons.append(z3.And(v >= 0, v < fmax()))
+                if i != j:
+                    offdiag.append(v)
+                    if positive:
+                        cons.append(v > 0)
+        if distinct and len(offdiag) > 1:
+            cons.append(z3.Distinct(offdiag))
+        return W, (z3.And(cons) if cons else None), vars_
+    W, c, vars_ = eng.memo(("sym_matrix", n, m, symmetric, diag, name, distinct, positive), build)
+    eng.track_vars.extend(vars_)
+    if c is not None:
+        eng.assume(c)
+    return [list(r) for r in W]
 
 
 def sym_vector(eng, n, name="q", lo=0):
